@@ -197,22 +197,60 @@ func verifC10Run(rt *rapid.T, c *kit.Case, snapshotDir func() string) {
 			return
 		}
 		c.Class(req.kind + "-of-" + req.tag)
-		s.logf("%s(%x %s)", req.kind, req.root.root[:2], req.tag)
-		if req.kind == "snapshot" {
-			lastSnapshotSeq = req.root.seq
-			fx.Adb.SnapshotState(verifSBCopy(req.root.root))
-		} else {
-			for h := range req.root.hashes {
-				ckptHashes[h] = struct{}{}
+		issue := func() {
+			s.logf("%s(%x %s)", req.kind, req.root.root[:2], req.tag)
+			if req.kind == "snapshot" {
+				lastSnapshotSeq = req.root.seq
+				fx.Adb.SnapshotState(verifSBCopy(req.root.root))
+			} else {
+				for h := range req.root.hashes {
+					ckptHashes[h] = struct{}{}
+				}
+				fx.Adb.SetStateCheckpoint(verifSBCopy(req.root.root))
 			}
-			fx.Adb.SetStateCheckpoint(verifSBCopy(req.root.root))
+			explicitRequests++
 		}
-		explicitRequests++
+
+		// Fault round (1 in 5): the read of one node of the main trie of the requested root fails once in the
+		// main trie database (transient storage error) while the snapshot / checkpoint runs; nothing else
+		// happens meanwhile (a failing read in the block processor would be a different story). commitSnapshot
+		// / commitCheckpoint abort with the error, which trieStorageManager only logs: that operation did not
+		// "take" the root and is not verified. The same request is then repeated without any fault and must
+		// be complete: a node must not be forgotten because an earlier attempt stumbled over it.
+		// Only main-trie nodes: after a fault inside a data trie the main trie root is already in the snapshot
+		// database, the repeated request is skipped ("already taken") or does not revisit the account leaf,
+		// and the data trie stays incomplete also on the unchanged tree (reported to the coordinator).
+		faultFired := false
+		faultRound := rapid.IntRange(0, 4).Draw(rt, "faultRound") == 0
+		if faultRound {
+			victim := rapid.SampledFrom(req.root.main).Draw(rt, "failReadOfNode")
+			fx.Flaky.Arm([]byte(victim))
+			issue()
+			verifC10Wait(rt, fx, base+explicitRequests, s.history)
+			faultFired = fx.Flaky.Disarm()
+			if faultFired {
+				c.Class("transient-read-error-during-" + req.kind)
+				s.logf("read of node %x failed once", victim[:2])
+				for i, n := 0, rapid.IntRange(0, 2).Draw(rt, "blocksBeforeRetry"); i < n && s.unfinalized() < 5; i++ {
+					s.execBlock(s.g.genBlock(rt, s.cur, 2), "block")
+				}
+				verifC10Wait(rt, fx, base+explicitRequests, s.history)
+				issue() // the retry, fault-free
+			} else {
+				c.Class("transient-read-error-not-reached")
+			}
+		} else {
+			issue()
+		}
 
 		// burst, without waiting: cheap prune calls first (they are the ones that have to land inside the
 		// snapshot window), then commits
 		commitsDuring, prunesDuring := 0, 0
-		for i, n := 0, rapid.IntRange(0, 8).Draw(rt, "burst"); i < n; i++ {
+		burstLen := rapid.IntRange(0, 8).Draw(rt, "burst")
+		if faultRound {
+			burstLen = 0
+		}
+		for i, n := 0, burstLen; i < n; i++ {
 			ev := rapid.SampledFrom([]string{"finalize", "finalize", "rollback", "block"}).Draw(rt, "burstEvent")
 			// the first two events are a commit and a prune call, so that both have a chance to land inside
 			// the snapshot window (which is short: small states)
@@ -284,6 +322,9 @@ func verifC10Run(rt *rapid.T, c *kit.Case, snapshotDir func() string) {
 		// node belongs to a root checkpointed before that database was opened
 		key := func(suffix string) string {
 			normal := "C10:" + req.kind + ":" + suffix
+			if faultFired {
+				normal = "C10:" + req.kind + "-after-transient-read-error:" + suffix
+			}
 			if !servedByExistingDB || len(staleCkptHashes) == 0 {
 				return normal
 			}
@@ -324,7 +365,7 @@ func verifC10Run(rt *rapid.T, c *kit.Case, snapshotDir func() string) {
 			c.Violation("C10:"+req.kind+":content", "%s of %s %x: state rebuilt from the snapshot database differs from the model: %s; history: %s",
 				req.kind, req.tag, req.root.root[:4], d, s.history())
 		}
-		if commitsDuring > 0 && prunesDuring > 0 && req.root.model.numDataTries() >= 2 {
+		if (commitsDuring > 0 && prunesDuring > 0 || faultFired) && req.root.model.numDataTries() >= 2 {
 			nonTrivial = true
 		}
 	}
@@ -341,7 +382,7 @@ func TestVerifC10_SnapshotsAndCheckpoints(t *testing.T) {
 		dirFn = func() string { return t.TempDir() }
 	}
 	kit.Run(t, "C10", kit.Budget{Quick: 250, Thorough: 1500},
-		"state of 3-30 accounts (about 1/3 with data tries of 1-7 keys) built by the block simulator (pruning queue 0..2, eviction list cache 1..100, checkpoint hashes holder large or 300..6000 bytes, snapshot DBs in memory, thorough also LevelDB); 1-3 rounds of: 0-4 blocks (some final), SnapshotState/SetStateCheckpoint of a live root (last final / queued / not final), immediately 0-6 finalize/rollback/block events, wait (poll, timeout = inconclusive), rebuild the state from the snapshot database returned by GetSnapshotThatContainsHash(root) alone and compare with the model of root. non-trivial = a round with >=1 commit and >=1 prune call issued while the snapshot was still running and >=2 data tries in the snapshotted state; distinct by event history",
+		"state of 3-30 accounts (about 1/3 with data tries of 1-7 keys) built by the block simulator (pruning queue 0..2, eviction list cache 1..100, checkpoint hashes holder large or 300..6000 bytes, snapshot DBs in memory, thorough also LevelDB); 1-3 rounds of: 0-4 blocks (some final), SnapshotState/SetStateCheckpoint of a live root (last final / queued / not final), immediately 0-6 finalize/rollback/block events, wait (poll, timeout = inconclusive), rebuild the state from the snapshot database returned by GetSnapshotThatContainsHash(root) alone and compare with the model of root. 1 round in 5 is a fault round instead: the read of one main-trie node of the requested root fails once in the main database while the operation runs (no other events), the operation is not verified, the same request is repeated fault-free (after 0-2 blocks) and must be complete. non-trivial = a verified round with >=2 data tries in the snapshotted state and either >=1 commit and >=1 prune call issued while the snapshot was still running, or a fault that fired; distinct by event history",
 		func(rt *rapid.T, c *kit.Case) { verifC10Run(rt, c, dirFn) })
 }
 
